@@ -13,7 +13,11 @@ def gen_case(rng, big):
     kind = rng.choice(["dna", "protein", "protein", "rna"])
     alpha = {"dna": gen.DNA, "rna": gen.RNA, "protein": gen.AA}[kind]
     shape = rng.choice(["balanced", "caterpillar", "star", "random"])
-    if big:
+    if big == "huge":
+        n = rng.choice([4200, 5200, 6100, 8300])
+        L = rng.randint(8, 22)
+        shape = "random"
+    elif big:
         n = rng.choice([100, 101, 150, 260, 400, 600])
         L = rng.randint(15, 60)
     else:
@@ -25,11 +29,13 @@ def gen_case(rng, big):
     return kind, shape, [("s%d" % i, s) for i, s in enumerate(seqs)]
 
 
-def run_case(ck, paths, idx, big):
+def run_case(ck, paths, idx, big, paths_huge=None):
+    if big == "huge" and paths_huge:
+        paths = paths_huge
     rng = ck.rng.__class__(ck.seed * 86028121 + idx)
     kind, shape, recs = gen_case(rng, big)
     word = rng.choice(kal.ADMISSIBLE[kind])
-    nt = rng.choice([1, 4, 16])
+    nt = rng.choice([1, 4, 16]) if big != "huge" else rng.choice([3, 5, 7, 8, 16])
     gp = rng.choice([(None, None, None), (None, None, None), (2.0, 1.0, 0.5), (0.0, 0.0, 0.0), (30.0, 5.0, 2.0)])
     log = ck.tmp(".log")
     env = {"KV_SNAP": "1", "KV_DELAY": rng.choice(["0:0", "200:200", "500:100"]), "VERIF_SEED": str(ck.seed + idx)}
@@ -61,6 +67,8 @@ def run_case(ck, paths, idx, big):
     ck.count("nodes_skipped_by_budget", rr["snap_skipped"])
     ck.count("residue_positions_compared", rr["snap_residues"])
     ck.count("tree_%s" % ("kmeans" if len(recs) >= 100 else "upgma"))
+    if len(recs) >= 2048:
+        ck.count("runs_with_more_than_2048_sequences")
     ck.count("shape_%s" % shape)
     ck.count("type_%s" % (word or "undefined"))
     ck.cmax("max_members_in_a_node", rr["snap_maxmem"])
@@ -74,8 +82,10 @@ def run(ck, tier):
     paths = build("asan")
     sc = getattr(ck, "scale", 1.0)
     nsmall, nbig = (120, 16) if tier == "quick" else (1300, 200)
-    jobs = [(i, False) for i in range(int(nsmall * sc))] + [(100000 + i, True) for i in range(int(nbig * sc))]
-    common.pmap(lambda j: run_case(ck, paths, j[0], j[1]), jobs, workers=10)
+    nhuge = 3 if tier == "quick" else 24
+    rel = build("rel")
+    jobs = [(200000 + i, "huge") for i in range(int(nhuge * sc))] + [(i, False) for i in range(int(nsmall * sc))] + [(100000 + i, True) for i in range(int(nbig * sc))]
+    common.pmap(lambda j: run_case(ck, paths, j[0], j[1], rel), jobs, workers=10)
     ck.rule = ("families over balanced/caterpillar/star/random trees with 3..99 (UPGMA) and 100..600 (k-means) sequences, all types, default and user penalties, "
                "threads 1/4/16 with injected delays; for every internal guide-tree node the hook runtime snapshots the members' gap vectors at completion and, "
                "after kalign_run, checks rank_U(final column) == column at completion for every residue of every member and |U| == group length. "
@@ -86,6 +96,6 @@ def run(ck, tier):
 def replay(ck, doc):
     paths = build("asan")
     rp = doc["replay"]
-    run_case(ck, paths, rp["idx"], rp.get("big", False))
+    run_case(ck, paths, rp["idx"], rp.get("big", False), build("rel"))
     with ck.lock:
         ck.nontrivial |= set(range(30))
